@@ -147,6 +147,10 @@ def gen(rng: random.Random, tier: str, index: int) -> dict:
                 off = fld[1] + rng.randrange(fld[2])
                 val = rng.choice([0, 1, 2, 3, 0x0A, 0x28, 0x29, 0x64, 0x70, 0x71, 0x73, 0x78, 0xF0, 0xF3, 0xFF, 0x7F, 0x80, rng.getrandbits(8), rng.getrandbits(8)])
                 faults.append([[off, val]])
+        for _ in range(rng.randint(1, 3)):
+            # the whole 24-bit size field set to a value around the header size (a file shorter than its own header)
+            v = rng.choice([0, 1, 2, 10, 11, 36, 37, 100, 139, 140, 141, 150, 0xFFFFFF, 0x800000])
+            faults.append([[17, v & 0xFF], [18, (v >> 8) & 0xFF], [19, (v >> 16) & 0xFF]])
         if entry > 0 and rng.random() < 0.5:
             # the damaged name now reads exactly like an EARLIER sibling's: that sibling keeps its name (the first of two
             # equal names is never renamed) and must keep its audio
